@@ -11,7 +11,6 @@ KINDS = {
     'C03': ['ExecuteMatch'],
     'C04': REVERSALS,
     'C05': FUND_MOVERS,
-    'C06': ['CancelAsk', 'CancelBid', 'ExpireAsk', 'ExpireBid'],
     'C08': ['ApproveAsk', 'ExecuteMatch', 'RejectAskNone', 'RejectAskSome', 'ExpireAsk', 'CancelAsk'],
     'C09': ['CreateBid', 'ExecuteMatch', 'RejectBidNone', 'RejectBidSome', 'CancelBid', 'ExpireBid'],
     'C10': FUND_MOVERS,
@@ -51,7 +50,7 @@ def run(pid, tier, seed, jobs=None, only=None):
             if s_['ask'] == 'Pending' or (mk and (all(f for _, f in mk) or not any(f for _, f in mk))):
                 specs.append(s_)
         specs = [s_ for s_ in specs if not only or s_['kind'] in only]
-        return R.run_check(pid, tier, seed, specs, jobs=jobs)
+        return R.run_check(pid, tier, seed, specs, opts={'extra': 'then_exit'}, jobs=jobs)
     if pid == 'C11':
         specs = [s for s in specs_c11(tier) if not only or s['kind'] in only]
         return R.run_check(pid, tier, seed, specs, jobs=jobs)
@@ -61,11 +60,41 @@ def run(pid, tier, seed, jobs=None, only=None):
     if pid == 'C14':
         return R.run_check(pid, tier, seed, EN.specs_migrate(tier), opts={'builder': 'build_migrate', 'runner': 'run_migrate', 'extra': 'idempotence'}, jobs=jobs)
     if pid == 'C15':
-        return R.run_check(pid, tier, seed, EN.specs_migrate(tier, for_c15=True), opts={'builder': 'build_migrate', 'runner': 'run_migrate'}, jobs=jobs)
+        rc = R.run_check(pid, tier, seed, EN.specs_migrate(tier, for_c15=True), opts={'builder': 'build_migrate', 'runner': 'run_migrate'}, jobs=jobs)
+        if tier == 'thorough':
+            rc = kani_second_opinion(pid, rc)
+        return rc
     if pid == 'C16':
         return R.run_check(pid, tier, seed, EN.specs_query(tier), opts={'builder': 'build_query', 'runner': 'run_query'}, jobs=jobs)
     print('unknown or not-applicable property ' + pid)
     return 2
+
+
+def kani_second_opinion(pid, rc):
+    """thorough tier of C15: Kani/CBMC on the COMPILED conversion `BidOrderV3::from(BidOrderV2)` (<= 2 symbolic events, u64 amounts, unwinding assertions on)"""
+    import subprocess, time, re
+    t0 = time.time()
+    env = dict(os.environ, CARGO_NET_OFFLINE='true', CARGO_TARGET_DIR='/verif/.cache/kani-target')
+    try:
+        p = subprocess.run(['cargo', 'kani', '--harness', 'conversion_sums_match_event_log'], cwd='/verif/kani', env=env, capture_output=True, text=True, timeout=3000)
+        out = p.stdout + p.stderr
+    except Exception as e:
+        out = 'kani did not run: %r' % (e,)
+    ok_ = 'VERIFICATION:- SUCCESSFUL' in out and '1 of 1 cover properties satisfied' in out
+    m = re.search(r'\*\* (\d+) of (\d+) failed', out)
+    fn = os.path.join('/verif/evidence', pid + '.json')
+    ev = json.load(open(fn))
+    ev['coverage']['kani_leaf_harness'] = {'harness': 'ats-kani::conversion_sums_match_event_log', 'bounds': 'event log <= 2 events, unwind 4 with unwinding assertions, u64 amounts', 'verdict': 'SUCCESSFUL' if ok_ else 'NOT SUCCESSFUL',
+                                           'checks_failed_of_total': m.groups() if m else None, 'cover_witness_satisfied': '1 of 1 cover properties satisfied' in out, 'wall_s': round(time.time() - t0, 1)}
+    ev['wall_s'] = round(ev['wall_s'] + time.time() - t0, 2)
+    if not ok_:
+        ev['coverage'].setdefault('inconclusive', []).append('Kani second opinion on the compiled conversion did not succeed: ' + out[-600:])
+    json.dump(ev, open(fn, 'w'), indent=1, sort_keys=True)
+    print('kani second opinion: %s (%.0fs)' % ('SUCCESSFUL' if ok_ else 'NOT SUCCESSFUL', time.time() - t0))
+    if not ok_ and rc == 0:
+        print('INCONCLUSIVE: Kani disagrees with / could not confirm the MIR-level verdict on the legacy-bid conversion')
+        return 2
+    return rc
 
 
 def replay_file(pid, path):
